@@ -248,6 +248,8 @@ def check_point(pt):
         return [V("second-write-shape", [nr, nc], [[len(c.data) for c in b2]], s.getvalue())], nontriv, "ok", {}, 4
     for j in range(nc):
         fmt = kw.get("column_fmt", {}).get(j, kw["fmt"])
+        if np.asarray(b2[j].data).dtype.kind != "f":
+            return [V("second-write-dtype", "float column %d" % j, str(np.asarray(b2[j].data).dtype), s.getvalue())], nontriv, "ok", {}, 4
         for i in range(nr):
             x, r = m2[i, j], b2[j].data[i]
             if np.isnan(x) != np.isnan(r):
